@@ -158,6 +158,11 @@ def run(ctx):
             # recursion subtracts more than one energy/amplitude product
             jobs.append(("amp", variant, 3, 1, seeds[:1]))
             jobs.append(("amp", variant, 3, 3, seeds[:1]))
+        if quick and variant == "re":
+            # third-order RE residuals (singles, doubles): the first order at
+            # which the class k+2 part of the wavefunction couples in
+            jobs.append(("amp", variant, 3, 1, seeds[:1]))
+            jobs.append(("amp", variant, 3, 2, seeds[:1]))
         jobs.append(("norm", variant, None, None, seeds[:1]))
         # one-particle expectation value through third order (the odd-order
         # normalisation factors first matter at order 3)
